@@ -24,7 +24,7 @@ def run(ctx):
                         "fetch, historical_lookup (exact in C31), export, bless, assign, designate, provide and the six inner-machine calls (exact in C33) are judged by the frame only",
                         "the two instruction charges of the dispatch program (ecalli, trap: 1 each) are C04's per-instruction clause"]
     quick = ctx.quick
-    with cf.ThreadPoolExecutor(6) as ex:
+    with cf.ThreadPoolExecutor(8) as ex:
         fb = ex.submit(hc.build, ctx)
         c = dict(hc.BUILD)
         c.update({"NRand": "0" if quick else "12", "Seed": str(ctx.seed % 499)})
@@ -34,9 +34,9 @@ def run(ctx):
         if ctx.replay:
             casefiles = [p for p in hc.replay_cases(ctx)[:1] if p]
         else:
-            ff = ex.submit(hc.gen, ctx, "frame", 16 if quick else 600, 1, ctx.seed)
+            ff = hc.gen_parts(ex, ctx, "frame", 16 if quick else 600, 1, 1 if quick else 5)
             fd = ex.submit(hc.gen, ctx, "disp", 2 if quick else 4, 1, ctx.seed)
-            casefiles = [ff.result(), fd.result()]
+            casefiles = [f.result() for f in ff] + [fd.result()]
         binp = fb.result()
         lines = hc.run_cases(ctx, binp, casefiles) if casefiles else []
         fmc.result()
